@@ -418,6 +418,9 @@ func c05RunContent(c hx.Case) any {
 }
 
 func runC05(c hx.Case) any {
+	if jstr(c, "mode") == "req" {
+		return c05RunReq(c)
+	}
 	if jstr(c, "mode") == "resp" {
 		return c05RunResp(c)
 	}
@@ -591,6 +594,9 @@ func cmpC05x(c hx.Case, impl any, reply map[string]any) hx.Verdict {
 	}
 	if jbool(reply, "unsupported") {
 		return hx.Verdict{IM: true, IS: true}
+	}
+	if jstr(c, "mode") == "req" {
+		return c05CmpReq(c, im, model, spec)
 	}
 	v := hx.Verdict{IM: true, IS: true}
 	if !jbool(spec, "enc_ok") {
@@ -945,6 +951,8 @@ func c05AbsentCar(cl c05Cell, name string, mode int) map[string]any {
 
 func genC05(ctx *hx.Ctx, emit0 func(hx.Case)) {
 	r := ctx.Rng
+	// whole requests through ValidateRequest: path-item and operation parameter lists, call sequences (c05req.go)
+	c05GenReq(ctx, emit0)
 	// every header case is also run as a response header (validateResponseHeader: the same decoder, another decision)
 	emit := func(c hx.Case) {
 		emit0(c)
@@ -1604,6 +1612,9 @@ func c05DropChars(s string) []string {
 }
 
 func shrinkC05(c hx.Case) []hx.Case {
+	if jstr(c, "mode") == "req" {
+		return c05ShrinkReq(c)
+	}
 	var out []hx.Case
 	if c["enc"] != nil {
 		x := cloneCase(c)
